@@ -69,6 +69,12 @@ def true_leaf(rng, n, dt, name=None, m=None):
     """A leaf that really has property `name` and is declared so (or an undeclared generic leaf)."""
     if name is None:
         name = S.pick(rng, ["SelfAdjoint", "PSD", "Unitary", "Stiefel", None, "builtin"])
+    if name == "builtin" and rng.random() < 0.25:
+        # rarely used kinds with annotations of their own (or none): reflectors with real and complex beta, tridiagonal operators
+        if rng.random() < 0.7:
+            beta = S.pick(rng, [2.0, 2.0, 1.0, 0.5] + ([{"re": 1.0, "im": 1.0}, {"re": 1.0, "im": -1.0}, {"re": 2.0, "im": 0.0}] if dt in P.CPLX else []))
+            return {"k": "Householder", "n": n, "dt": dt, "seed": S.seed(rng), "unit": True, "beta": beta}
+        return {"k": "Tridiagonal", "n": max(n, 2), "dt": dt, "seed": S.seed(rng), "dominant": True, "sym": bool(rng.random() < 0.5)} if n >= 2 else {"k": "Identity", "n": n, "dt": dt}
     if name == "builtin":
         k = S.pick(rng, ["Identity", "Permutation", "FFT", "Hessian", "Diagonal", "ScalarMul"])
         o = S.Opts(dtmode=dt, scalar_pool=[2.0, -1.5, 1.0, 3] + ([{"re": 0.0, "im": 1.0}] if dt in P.CPLX else []))
